@@ -10,9 +10,9 @@ from . import metadata_drv as md
 YEARS = [1980, 1999, 2001, 2023, 2038, 2069, 2099]
 
 
-def random_rate(rng, small=False):
+def random_rate(rng, small=False, huge=False):
     fam = rng.choice(["int", "third", "seventh", "x1001", "small", "small", "slow"]) if not small else rng.choice(["tiny", "tiny", "slow"])
-    if not small and rng.random() < 0.12:
+    if not small and (huge or rng.random() < 0.12):
         # index * denominator beyond 2^64: any fixed-width intermediate in the placement arithmetic wraps
         return rng.choice([30000000000, 12000000000, 10**10 + 1, 2**33 + 7]), rng.choice([1001, 1001, 3, 7])
     if fam == "int":
@@ -30,11 +30,11 @@ def random_rate(rng, small=False):
     return 1, rng.choice([2, 3, 5, 7])
 
 
-def random_config(rng, schema, small=False):
+def random_config(rng, schema, small=False, huge=False):
     """a metadata channel at real scale whose modelled windows span < 2^31 indices; small: few samples per file (C20 trees
     carry RF data of the same rate)"""
     for _ in range(500):
-        n, d = random_rate(rng, small)
+        n, d = random_rate(rng, small, huge)
         fc = rng.choice([1, 1, 2, 3, 5, 10, 60, 3600]) if not small else rng.choice([1, 2, 3])
         cap_num, cap_den = fc * n, d          # samples per file = cap_num / cap_den
         if cap_num * 8 < cap_den:             # fewer than one sample per 8 files: too sparse to be interesting
@@ -297,10 +297,11 @@ def dup_call(w, rng, tpl, stored, uniform):
     return set(ev["stored"])
 
 
-def random_c12(digital_rf, root, rng, name):
+def random_c12(digital_rf, root, rng, name, strat=0):
+    """strat: a running scenario number; every sixth scenario uses a rate at which index * denominator exceeds 2^64"""
     uniform = rng.random() < 0.35
     tpl, leaves = random_schema(rng, uniform)
-    cfg = random_config(rng, leaves)
+    cfg = random_config(rng, leaves, huge=strat % 6 == 5)
     w = md.MdWorld(digital_rf, root, cfg)
     tops = cfg.tops()
     readers = [1]
@@ -363,7 +364,7 @@ def random_c12(digital_rf, root, rng, name):
     return w.scenario(name, dict(uniform=uniform, schema=leaves))
 
 
-def random_c20(digital_rf, root, rng, name):
+def random_c20(digital_rf, root, rng, name, strat=0):
     """call-granularity interleaving of metadata writes, RF writes, reader construction and read-only calls by one old and one
     new reader of each kind on one tree; the tree is hashed (names, sizes, mtimes, bytes) around every call"""
     uniform = rng.random() < 0.5
